@@ -389,9 +389,10 @@ def extended_format_BUILD_CONST_KEY_MAP(opc, instructions):
     key_values = key_tuple.argval
     if key_tuple.opname == "LOAD_CONST" and isinstance(key_values, tuple):
         arglist, _, i = get_arglist(instructions, 1, arg_count)
-        if arglist is not None:
+        # In 3.13 two values can come from one LOAD_FAST_LOAD_FAST, and then
+        # there are fewer argument instructions than keys: give up on those.
+        if arglist is not None and len(arglist) == len(key_values):
             assert isinstance(i, int)
-            assert len(arglist) == len(key_values)
             arg_pairs = []
             for i in range(len(arglist)):
                 arg_pairs.append(f"{key_values[i]}: {arglist[i]}")
